@@ -90,3 +90,12 @@ package manager
 //@      p.GetPackagePullPolicy() != nil && *p.GetPackagePullPolicy() == "IfNotPresent" && p.GetCurrentIdentifier() == p.GetSource() && result == p.GetCurrentRevision()
 //@ ensures [C14:revision-named-after-the-reported-digest] err == nil && headed && result != "" ==> $d != nil && result == xpkg.FriendlyID(p.GetName(), $d.Digest.Hex)
 //@ ensures [C14:never-pull-names-the-revision-after-the-source] err == nil && p.GetPackagePullPolicy() != nil && *p.GetPackagePullPolicy() == "Never" ==> result == xpkg.FriendlyID(p.GetName(), p.GetSource())
+
+// C14 (the revision for a source is resolved from the registry's current answer for that source):
+// the revisioner asks the fetcher it was given - nothing is put between them that could answer
+// for the registry.
+//@ func manager.NewPackageRevisioner
+//@ props C14
+//@ loop range opts
+//@   invariant [C14:revisioner-keeps-the-given-fetcher-while-options-are-applied] len(opts) == 0 ==> (r != nil && r.fetcher == fetcher)
+//@ ensures [C14:revisioner-asks-the-given-fetcher] len(opts) == 0 ==> (result != nil && result.fetcher == fetcher)
